@@ -442,3 +442,81 @@ def c12g(ctx):
                               'stored progress is looked up / recorded by task.id', f, x)
     if n < 2:
         raise Undecided('only %d accesses of the progress store found' % n)
+
+
+@rule('C12.h', floor=2)
+def c12h(ctx):
+    """level 0 is a level like any other: the bounds of a `levels: {from: .., to: ..}` range are replaced by their defaults only when
+    they are missing (None), never because they are falsy -- `to: 0` read as "no upper bound" turns a clean-up of level 0 into a
+    clean-up of the whole pyramid"""
+    from .c05 import _truthy_names
+    fn = ctx.fn('mapproxy/seed/config.py:LevelsRange.for_grid')
+    defs = Defs(fn.node)
+    bounds = set()
+    for name, ds in defs.defs.items():
+        for v, sel in ds:
+            if isinstance(sel, int) and 'level_range' in unparse(v):
+                bounds.add(name)
+    if len(bounds) < 2:
+        raise Undecided('LevelsRange.for_grid: the two bounds unpacked from self.level_range were not found (%s)' % sorted(bounds))
+    flagged = []
+    for node in fn.walk():
+        tests = []
+        if isinstance(node, (ast.If, ast.While, ast.IfExp, ast.Assert)):
+            _truthy_names(node.test, tests)
+        elif isinstance(node, ast.BoolOp):
+            for v in node.values[:-1]:
+                _truthy_names(v, tests)
+        flagged += [t.id for t in tests if t.id in bounds]
+    ctx.check(not flagged, 'LevelsRange.for_grid:zero-is-a-level', 'the bounds %s are only compared with None' % sorted(bounds), fn,
+              fail='the level bound(s) %s are tested by truthiness: level 0 as a bound counts as "not given" and the task covers all levels' % sorted(set(flagged)))
+    g = fn.cfg
+    sets = g.find_stmts(lambda s: isinstance(s, ast.Assign) and isinstance(s.targets[0], ast.Name) and s.targets[0].id in bounds and
+                        isinstance(s.value, ast.Constant))
+    ok = bool(sets) and all(g.guarded(n, lambda at: at.op == '==' and 'None' in at.text, True) for n in sets)
+    ctx.check(ok, 'LevelsRange.for_grid:defaults-only-for-none', 'a default replaces a bound only under `<bound> is None`', fn,
+              fail='a level bound is overwritten with a default although it was given')
+
+
+@rule('C12.i', floor=1)
+def c12i(ctx):
+    """a clean-up never removes tiles whose meta tile lies outside the task coverage: a configured coverage that turned out to be
+    *empty* (False: an expire list without changes, a file without features) is not the same as *no* coverage (None).  Only the
+    latter means "the complete extent"; the empty one is carried on as False (the clean-up skips the task)"""
+    fn = ctx.fn('mapproxy/seed/config.py:CleanupConfiguration.cleanup_tasks')
+    loops = [s for s in fn.walk() if isinstance(s, ast.For)]
+    inner = [l for l in loops if not any(isinstance(x, ast.For) for s in l.body for x in ast.walk(s))]
+    if not inner:
+        raise Undecided('cleanup_tasks: loop over the caches not found')
+    body = [s for s in inner[-1].body if any(isinstance(x, ast.Assign) and any(isinstance(t, ast.Name) and t.id in ('coverage', 'complete_extent')
+                                                                               for t in x.targets) for x in ast.walk(s))]
+
+    def ev(st):
+        if isinstance(st, ast.Assign) and len(st.targets) == 1 and isinstance(st.targets[0], ast.Name):
+            t, v = st.targets[0].id, st.value
+            if t == 'complete_extent':
+                return 'extent=%s' % (const_value(v, '?') if isinstance(v, ast.Constant) else unparse(v))
+            if t == 'coverage':
+                return 'cov=%s' % ('False' if const_value(v, 1) is False else 'grid' if is_call(v, 'BBOXCoverage') else
+                                   'own' if is_call(v, 'self.coverage.transform_to') else unparse(v)[:30])
+        return None
+    tab = ctx.rows(table(body, lambda n: 'go' if n is None else type(n).__name__, event_of=ev))
+    a_false = [a for a in tab.atoms if 'self.coverage' in a and 'False' in a]
+    a_truth = [a for a in tab.atoms if a == 'self.coverage']
+    ok = len(a_false) == 1 and len(a_truth) == 1
+    bad = []
+    if ok:
+        fobj = tab.atom_objs[a_false[0]]
+        for asg, out, events in tab.assignments():
+            is_false = asg[a_false[0]] if fobj.op in ('==', 'is') else not asg[a_false[0]]
+            if is_false and asg[a_truth[0]]:
+                continue            # False is not truthy
+            ext = [e for e in events if e.startswith('extent=')][-1:]
+            cov = [e for e in events if e.startswith('cov=')][-1:]
+            want = (['extent=False'], ['cov=False']) if is_false else (['extent=False'], ['cov=own']) if asg[a_truth[0]] else (['extent=True'], ['cov=grid'])
+            if (ext, cov) != want:
+                bad.append((dict(asg), ext, cov))
+    ctx.check(ok and not bad, 'CleanupConfiguration.cleanup_tasks:empty-coverage-is-not-everything',
+              'coverage False -> (False, not the complete extent); a coverage -> transformed, not complete; None -> grid bbox, complete extent', fn,
+              fail='the clean-up task for an empty coverage is not carried on as "nothing" (%s): it runs over the complete extent' % (
+                  bad[:1] if bad else 'no `self.coverage is False` case, atoms %s' % tab.atoms))
